@@ -245,6 +245,39 @@ theorem trichotomy_partial (q : ValQuirks) (env : Env ν) (a b : V ν)
     Bool.false_eq_true, if_false, if_neg hn]
   cases o <;> cases q.ordCalcFlag <;> simp [exactlyOne]
 
+/-- WEAKEST hypothesis: for two numbers the operators are defined on (`comparable`), exactly one
+of `a < b`, `a == b`, `a > b` holds IF AND ONLY IF `Numeric::partial_cmp` is defined and, when it
+says `Equal`, the units are the same or both present.  So neither condition of `trichotomy` can be
+weakened: without the first (NaN) none holds, without the second (`1` against `1px`) none holds
+(`nan_no_trichotomy`, `unitless_vs_unit_no_trichotomy`); and for incomparable units `<` is an
+error (`incomparable_is_error`). -/
+theorem trichotomy_iff (q : ValQuirks) (hq : q.ordCalcFlag = false) (env : Env ν) (a b : V ν)
+    (x : ν) (ux : Nat) (ca : Bool) (y : ν) (uy : Nat) (cb : Bool)
+    (ha : a.asNumber = some (x, ux, ca)) (hb : b.asNumber = some (y, uy, cb))
+    (hcomp : comparable env ux uy = true) :
+    exactlyOne (holds (V.rel q env .lt a b)) (holds (V.rel q env .eq a b)) (holds (V.rel q env .gt a b)) = true
+      ↔ ∃ o, numericCmp q env x ux y uy = some o ∧ (o = .eq → (ux = uy ∨ (ux ≠ 0 ∧ uy ≠ 0))) := by
+  have he : V.eq q env a b = numericEq q env x ux y uy := by
+    cases a <;> simp [V.asNumber] at ha <;> cases b <;> simp [V.asNumber] at hb <;>
+      simp [V.eq, ha, hb]
+  simp only [V.rel, ha, hb, hq, Bool.false_eq_true, if_false, holds, he, numericEq, ordHolds, hcomp,
+    Bool.not_true, Bool.and_false]
+  cases hc : numericCmp q env x ux y uy with
+  | none => simp [exactlyOne]
+  | some o =>
+    cases o
+    · simp [exactlyOne]
+    · by_cases h1 : ux = uy <;> by_cases h2 : ux = 0 <;> by_cases h3 : uy = 0 <;>
+        simp [exactlyOne, h1, h2, h3] <;> omega
+    · simp [exactlyOne]
+
+/-- without a defined comparison (NaN) none of `<`, `==`, `>` holds -/
+theorem nan_no_trichotomy :
+    V.rel Val.spec env0 .lt (.num ⟨0, 0⟩ 0) (.num one 0) = .bool false
+    ∧ V.rel Val.spec env0 .eq (.num ⟨0, 0⟩ 0) (.num one 0) = .bool false
+    ∧ V.rel Val.spec env0 .gt (.num ⟨0, 0⟩ 0) (.num one 0) = .bool false := by
+  decide +kernel
+
 /-- the unit hypotheses are met: same unit is comparable for every table -/
 example (env : Env XRat) : comparable env 1 1 = true ∧ ((1 : Nat) = 1 ∨ ((1 : Nat) ≠ 0 ∧ (1 : Nat) ≠ 0)) := by
   simp [comparable]
